@@ -344,6 +344,9 @@ pub trait QApi: Sized + Clone + for<'de> serde::Deserialize<'de> {
     /// run f on a protocol view of the named iterator
     fn with_iter(&mut self, it: &str, adaptor: &str, k: usize, forget: bool, f: &mut dyn FnMut(&mut dyn Proto));
     fn with_into_iter(self, it: &str, adaptor: &str, k: usize, f: &mut dyn FnMut(&mut dyn Proto));
+    /// the order in which a plain forward traversal of the named iterator yields the keys: taken from the
+    /// same queue for the borrowing iterators and from a clone for the consuming ones
+    fn ref_order(&self, it: &str) -> Vec<String>;
 }
 
 fn snap_of<I, P>(s: priority_queue::VerifSnapshot<'_, I, P>, f: impl Fn(&I, &P) -> (String, i64, i64, i64)) -> Snap {
@@ -490,6 +493,19 @@ macro_rules! common_impl {
 impl<H: BuildHasher + Default + Clone + std::fmt::Debug> QApi for PriorityQueue<Item, Pri, H> {
     const KIND: &'static str = "pq";
     common_impl!();
+    fn ref_order(&self, it: &str) -> Vec<String> {
+        match it {
+            "iter" | "iter_ref" | "iter_mut" | "iter_mut_ref" => self.iter().map(|(i, _)| i.key.clone()).collect(),
+            "drain" => {
+                let mut c = self.clone();
+                let v: Vec<String> = c.drain().map(|(i, _)| i.key.clone()).collect();
+                v
+            }
+            "into_iter" => self.clone().into_iter().map(|(i, _)| i.key.clone()).collect(),
+            _ => vec![],
+        }
+    }
+
     fn iter_mut_front(&mut self, n: usize, _nb: usize, _back_first: bool, via_ref: bool, forget: bool, f: &mut dyn FnMut(&mut Item, &mut Pri)) {
         let mut it = if via_ref { (&mut *self).into_iter() } else { self.iter_mut() };
         for _ in 0..n {
@@ -570,6 +586,19 @@ impl<H: BuildHasher + Default + Clone + std::fmt::Debug> QApi for PriorityQueue<
 impl<H: BuildHasher + Default + Clone> QApi for DoublePriorityQueue<Item, Pri, H> {
     const KIND: &'static str = "dpq";
     common_impl!();
+    fn ref_order(&self, it: &str) -> Vec<String> {
+        match it {
+            "iter" | "iter_ref" | "iter_mut" | "iter_mut_ref" => self.iter().map(|(i, _)| i.key.clone()).collect(),
+            "drain" => {
+                let mut c = self.clone();
+                let v: Vec<String> = c.drain().map(|(i, _)| i.key.clone()).collect();
+                v
+            }
+            "into_iter" => self.clone().into_iter().map(|(i, _)| i.key.clone()).collect(),
+            _ => vec![],
+        }
+    }
+
     fn iter_mut_front(&mut self, n: usize, nb: usize, back_first: bool, via_ref: bool, forget: bool, f: &mut dyn FnMut(&mut Item, &mut Pri)) {
         let mut it = if via_ref { (&mut *self).into_iter() } else { self.iter_mut() };
         if back_first {
